@@ -406,7 +406,7 @@ pub fn run(ctx: &Ctx) -> Report {
         "(1) bounded-exhaustive: every byte string of length <= L over the 25 boundary bytes of the UTF-8 well-formedness table x every partition into chunks (2^(n-1)), through Utf8LossyDecoder into a recording sink, compared item by item (characters and error calls, in order) with std's utf8_chunks()/from_utf8_lossy of the whole input; (2) random UTF-8-structured byte strings (<=40 units: ASCII, valid chars, truncated sequences, surrogates, overlongs, >10FFFF, stray continuations, BOM) x random cut multisets incl. empty chunks, 1/4 of them also parsed through parse_document(..).from_utf8() (HTML and XML drivers) and compared with the tree of the lossy string; (3) each of the 40 encoding_rs encodings: LossyDecoder::new_encoding_rs fed in chunks vs a one-shot decode of the whole input (characters, malformed-sequence errors, pending state at end of stream), inputs biased to lead/trail/escape bytes, surrogates and >8 KiB lengths. Non-trivial: an ill-formed/incomplete sequence or a valid multi-byte character is adjacent to / split by a cut (UTF-8), or >=2 non-empty chunks with non-ASCII output or a malformed sequence (encoding_rs); distinct by hash of (encoding, chunk list).",
     );
     rep.assume("std::str::Utf8Chunks / String::from_utf8_lossy and encoding_rs's one-shot decode are the reference decoders");
-    run_regressions(ctx, &mut rep, &|v| replay(ctx, v));
+    run_regressions(ctx, &mut rep, &|v| replay(&ctx.strict_clone(), v));
 
     // (1) exhaustive
     let l = ctx.tier.pick(4usize, 5usize);
